@@ -6,6 +6,7 @@ import Nervus.Driver.Bulk
 import Nervus.Driver.Capi
 import Nervus.Driver.CapiSched
 import Nervus.Driver.Capix
+import Nervus.Driver.CapiLbl
 import Nervus.Driver.Codec
 import Nervus.Driver.Crash
 import Nervus.Driver.Cypher
@@ -61,6 +62,7 @@ def streams : List (String × Stream) := ([] : List (String × Stream))
   |>.cons ("extid", ExtIdStream.stream)
   |>.cons ("capi", CapiStream.stream)
   |>.cons ("capiryw", CapiStream.streamRyw)
+  |>.cons ("capilbl", CapiLblStream.stream)
   |>.cons ("capix", CapixStream.stream)
   |>.cons ("hostcrash", HostCrashStream.stream)
   |>.cons ("crash", CrashStream.stream)
